@@ -26,9 +26,9 @@ BOUNDS = {  # tier -> (MaxHist for B1, MaxHist for exhaustive emission, simulate
 }
 
 
-def cfg(maxhist, emit):
+def cfg(maxhist, emit, policy='first_fit'):
     base = (tlc.SPEC / 'MC_SpectrumAssign.cfg').read_text()
-    base = base.replace('MaxHist = 4', f'MaxHist = {maxhist}')
+    base = base.replace('MaxHist = 4', f'MaxHist = {maxhist}').replace('Policy = "first_fit"', f'Policy = "{policy}"')
     if emit:
         # generation run: only the emission "invariant"
         lines = [ln for ln in base.splitlines() if not ln.startswith('INVARIANT')]
@@ -130,7 +130,7 @@ def tdesc(t):
             f"|sp={t['spacing'] / 1000:g}GHz|pre={int(t['pre'])}")
 
 
-def replay_history(bench, js, chk):
+def replay_history(bench, js, chk, policy='first_fit'):
     """returns True when the real code followed the model on the whole history"""
     from gnpy.topology.spectrum_assignment import pth_assign_spectrum
     from gnpy.topology.request import find_reversed_path
@@ -143,7 +143,7 @@ def replay_history(bench, js, chk):
         rp = find_reversed_path(p) if bid else []
         rq = make_request(t, i)
         try:
-            pth_assign_spectrum([p], [rq], oms_list, [rp])
+            pth_assign_spectrum([p], [rq], oms_list, [rp], policy=policy)
             st = getattr(rq, 'blocking_reason', None)
             if t['pre']:
                 got = ('preblocked', [])
@@ -164,7 +164,8 @@ def replay_history(bench, js, chk):
         blocked_wrote = (exp['st'] != 'served') and bad_oms
         if not same_res or bad_oms:
             kind = 'result' if not same_res else ('blocked-request-changed-state' if blocked_wrote else 'occupancy')
-            sig = f'B2|{tdesc(t)}|{kind}|model={exp["st"]}|code={got[0].split(":")[0][:40]}'
+            sig = f'B2|{tdesc(t)}|{kind}|model={exp["st"]}|code={got[0].split(":")[0][:40]}' \
+                + ('' if policy == 'first_fit' else f'|{policy}')
             chk.violation(sig, dict(history=[tdesc(x['t']) for x in js['hist']], step=i, model=exp,
                                     code=dict(st=got[0], nm=got[1]),
                                     model_occ={k: sorted(v) for k, v in occ.items()},
@@ -191,7 +192,7 @@ def intervals(bits, idx):
     return out
 
 
-def record_planning(name, net, eq, data, chk):
+def record_planning(name, net, eq, data, chk, policy='first_fit'):
     """run the real planning() and record one trace: one event per request, observed around the real
     pth_assign_spectrum call (inputs captured before the call, results and bitmaps after it)"""
     import gnpy.tools.worker_utils as wu
@@ -203,7 +204,7 @@ def record_planning(name, net, eq, data, chk):
 
     def wrapper(pths, rqs, oms_list, rpths, policy='first_fit'):
         b0 = oms_list[0].spectrum_bitmap
-        tr = dict(name=name, nmin=b0.n_min, nmax=b0.n_max, idxmin=b0.freq_index_min, idxmax=b0.freq_index_max,
+        tr = dict(name=name, policy=policy, nmin=b0.n_min, nmax=b0.n_max, idxmin=b0.freq_index_min, idxmax=b0.freq_index_max,
                   unusable={}, noms=len(oms_list))
         for o in oms_list:
             b = o.spectrum_bitmap
@@ -263,7 +264,7 @@ def record_planning(name, net, eq, data, chk):
     wu.pth_assign_spectrum = wrapper
     try:
         try:
-            wu.planning(net, eq, data)
+            wu.planning(net, eq, data, user_policy=policy)
         except RuntimeError:
             if 'tr' not in box:
                 raise
@@ -328,6 +329,7 @@ TNMax == {tr["nmax"]}
 TIdxMin == {tlc.tla_value(tr["idxmin"])}
 TIdxMax == {tr["idxmax"]}
 TOMS == 0..{tr["noms"] - 1}
+TPolicy == "{tr.get("policy", "first_fit")}"
 TUnusable == {" @@ ".join(f"({x.strip()})" for x in unus.split(", ")) if unus else "<<>>"}
 ====
 '''
@@ -348,15 +350,23 @@ def run(chk):
     if r3.violated or (r3.error and 'Finished' not in r3.out and not r3.emitted):
         raise Machinery(f'simulation run failed: {r3.error}')
     hists += r3.emitted
+    # the same model under the last_fit policy: B1 at one request less, B2 by simulation
+    r4 = tlc.run('MC_SpectrumAssign', cfg_text=cfg(b1_hist - 1, emit=False, policy='last_fit'), timeout=1800, tag='c14-mc-last')
+    chk.add_mc(f'MC_SpectrumAssign last_fit MaxHist={b1_hist - 1}', r4)
+    r5 = tlc.run('MC_SpectrumAssign', cfg_text=cfg(sim_depth, emit=True, policy='last_fit'), simulate=f'num={sim_num // 2}',
+                 depth=sim_depth + 1, seed=chk.seed + 2, workers=1, timeout=1800, tag='c14-sim-last')
+    if r5.violated or (r5.error and 'Finished' not in r5.out and not r5.emitted):
+        raise Machinery(f'simulation run (last_fit) failed: {r5.error}')
+    hists = [('first_fit', js) for js in hists] + [('last_fit', js) for js in r5.emitted]
     bench = Bench(2, -8, 8, -7, 7, {3: list(range(5, 9)) + [-8, -7], 4: list(range(5, 9)) + [-8, -7]})
     seen = set()
     steps = 0
-    for js in hists:
-        key = tuple(tdesc(h['t']) for h in js['hist'])
+    for policy, js in hists:
+        key = (policy,) + tuple(tdesc(h['t']) for h in js['hist'])
         if key in seen:
             continue
         seen.add(key)
-        ok = replay_history(bench, js, chk)
+        ok = replay_history(bench, js, chk, policy)
         steps += len(js['hist'])
         chk.case(key, nontrivial=any(h['out']['st'] == 'served' for h in js['hist']))
         if ok:
@@ -389,12 +399,14 @@ def run_b3(chk):
     for b in range(nbatches):
         net, eq = fresh_net()
         data, kinds = random_services(net, rng, 14, f'b{b}-')
-        jobs.append(record_planning(f'meshV2:seeded-batch-{b}', net, eq, loadable(data, kinds, eq, chk), chk))
+        jobs.append(record_planning(f'meshV2:seeded-batch-{b}', net, eq, loadable(data, kinds, eq, chk), chk,
+                                    policy='last_fit' if b % 3 == 2 else 'first_fit'))
     # multiband network (C+L OMS next to C-only OMS): unusable gaps inside the axis
     for b in range(1 if chk.tier == 'quick' else 6):
         net, eq = fresh_net('multiband_example_network.json', 'eqpt_config_multiband.json')
         data, kinds = random_services(net, rng, 10, f'm{b}-')
-        jobs.append(record_planning(f'multiband:seeded-batch-{b}', net, eq, loadable(data, kinds, eq, chk), chk))
+        jobs.append(record_planning(f'multiband:seeded-batch-{b}', net, eq, loadable(data, kinds, eq, chk), chk,
+                                    policy='last_fit' if b % 2 == 1 else 'first_fit'))
     traces_ok = judge_traces(jobs, chk)
     chk.cov['b3_traces'] = len(jobs)
     chk.cov['b3_requests'] = sum(len(t['ev']) for t in jobs)
@@ -406,7 +418,8 @@ def judge_traces(jobs, chk):
     # group by identical grid+unusable layout so constants can be literal
     groups = {}
     for tr in jobs:
-        key = json.dumps([tr['nmin'], tr['nmax'], tr['idxmin'], tr['idxmax'], tr['noms'], tr['unusable']], sort_keys=True)
+        key = json.dumps([tr['nmin'], tr['nmax'], tr['idxmin'], tr['idxmax'], tr['noms'], tr['unusable'],
+                          tr.get('policy', 'first_fit')], sort_keys=True)
         groups.setdefault(key, []).append(tr)
     for key, trs in groups.items():
         data = '\n'.join(json.dumps(dict(name=t['name'], ev=t['ev'], final=[t['final'][o] for o in sorted(t['final'])]))
@@ -429,6 +442,8 @@ def judge_traces(jobs, chk):
                 for step, clause in v['viol'][:3]:
                     e = t['ev'][step - 1] if step >= 1 else {}
                     sig = f'B3|{clause}|{e.get("st")}|slots={"".join("(%s,%s)" % (("-" if s["n"] == NONE else "N"), ("-" if s["m"] == NONE else "M")) for s in e.get("slots", []))}'
+                    if t.get('policy', 'first_fit') != 'first_fit':
+                        sig += f'|{t["policy"]}'
                     chk.violation(sig, dict(trace=t['name'], step=step, clause=clause, event=e))
             else:
                 ok += 1
@@ -477,11 +492,17 @@ def _mut_lastfit():
     sa.select_candidate = lambda c, policy: orig(c, sa.LAST_FIT if len(c) > 3 else policy)
 
 
+def _mut_lastfit_second():
+    import gnpy.topology.spectrum_assignment as sa
+    orig = sa.select_candidate
+    sa.select_candidate = lambda c, policy: c[-2] if policy == sa.LAST_FIT and len(c) > 1 else orig(c, policy)
+
+
 def _mut_reverse_lost():
     import gnpy.topology.spectrum_assignment as sa
     orig = sa.build_path_oms_id_list
     sa.build_path_oms_id_list = lambda pth: sorted(orig(pth))[:max(1, len(orig(pth)) - 1)] if len(orig(pth)) > 2 else orig(pth)
 
 
-MUTANTS = {'alias': _mut_alias, 'offbyone': _mut_offbyone, 'guard': _mut_guard, 'lastfit': _mut_lastfit,
+MUTANTS = {'lastfit_second': _mut_lastfit_second, 'alias': _mut_alias, 'offbyone': _mut_offbyone, 'guard': _mut_guard, 'lastfit': _mut_lastfit,
            'reverse_lost': _mut_reverse_lost}
